@@ -24,6 +24,9 @@ def run(ctx):
         s = '%d.%0*d' % (ip, digits, rng.randrange(10**digits))
         fr = Fraction(float(s))
         cases.append(('f64 %s' % s, '%d/%d' % (fr.numerator, fr.denominator), True))
+    # the literal 1e-08 written out in the model (bounded by theorem C17.lit1em8_close) is the model's and CPython's
+    lit = Fraction(1e-08)
+    cases.append(('amt_lit', '%d/%d' % (lit.numerator, lit.denominator), True))
     ctx.compare(cases, 'model-vs-cpython')
 
     ns = set(range(0, 20001))
